@@ -58,9 +58,9 @@ func genC29(r *simrt.Rand, tier string) *simrt.Plan {
 					simrt.Op{K: "rrow", I: []int64{g.row()}},
 					simrt.Op{K: "rbit", I: []int64{g.row(), g.col()}},
 					simrt.Op{K: "rrows", I: []int64{0}},
-					simrt.Op{K: "rrow", I: []int64{g.row()}}))
+					simrt.Op{K: "rrowheld", I: []int64{g.row(), int64(1 + r.Intn(12))}}))
 			default:
-				ops = append(ops, simrt.Op{K: simrt.Pick(r, "snapshot", "flush", "recalc", "rblocksraw", "rtopraw")})
+				ops = append(ops, simrt.Op{K: simrt.Pick(r, "snapshot", "flush", "recalc", "recalc", "rblocksraw", "rtopraw", "rtopsrc", "rtopsrc"), I: []int64{g.row()}})
 			}
 		}
 		p.Clients = append(p.Clients, ops)
@@ -126,6 +126,12 @@ func (h *l2) doConcurrent(op simrt.Op) (string, error) {
 		return "", f.importRoaring(context.Background(), data, I[0] != 0)
 	case "rrow":
 		return fmt.Sprint(f.row(uint64(I[0])).Columns()), nil
+	case "rrowheld": // I=[row, yields]: the row is fetched, other tasks run, then it is read
+		row := f.row(uint64(I[0]))
+		for i := int64(0); i < I[1]; i++ {
+			simrt.Yield("row-held")
+		}
+		return fmt.Sprint(row.Columns()), nil
 	case "rbit":
 		simrt.RLock(&f.mu, "harness")
 		b, err := f.bit(uint64(I[0]), h.col(I[1]))
@@ -145,6 +151,24 @@ func (h *l2) doConcurrent(op simrt.Op) (string, error) {
 		return "", nil
 	case "rtopraw":
 		_, err := f.top(topOptions{N: 2})
+		return "", err
+	case "rtopsrc": // I=[row]: TopN against a source row; per ranked row the fragment lock is taken again
+		if f.CacheType == CacheTypeNone {
+			return "", nil
+		}
+		src := f.row(uint64(I[0]))
+		srcN := src.Count()
+		pairs, err := f.top(topOptions{N: 3, Src: src})
+		seen := map[uint64]bool{}
+		for _, p := range pairs {
+			if seen[p.ID] {
+				h.c.Fail("topn-duplicate", "top(N=3, Src=row %d) lists row %d twice: %v", I[0], p.ID, pairs)
+			}
+			seen[p.ID] = true
+			if p.Count == 0 || p.Count > srcN {
+				h.c.Fail("topn-count", "top(N=3, Src=row %d with %d columns) reports row %d with count %d: %v", I[0], srcN, p.ID, p.Count, pairs)
+			}
+		}
 		return "", err
 	case "rstate":
 		var sb strings.Builder
@@ -321,7 +345,7 @@ func c29Model(shard uint64, mutex bool) porcupine.Model {
 					}
 				}
 				return true, m.String()
-			case "rrow":
+			case "rrow", "rrowheld":
 				var cols []uint64
 				for k := range m {
 					if k[0] == uint64(I[0]) {
